@@ -68,9 +68,9 @@ theorem decode_rejects_v_prefix (s : String) (hs : s.toList.head? = some 'v') :
 /-- main.go's normalisation of the linker-provided version is the one modelled by `normalizeBuild`
 (regenerated from main.go: the rewriting condition, the rewriting statement, and what is handed to the command) -/
 theorem pin_main_normalisation :
-    Generated.mainTrimCond = "strings.HasPrefix(i.GitVersion, \"v\") && semver.IsValid(i.GitVersion)" ∧
-    Generated.mainTrimBody = ["i.GitVersion = strings.TrimPrefix(i.GitVersion, \"v\")"] ∧
-    Generated.mainVersionHanded = "bv.GitVersion" := by decide
+    Generated.mainTrimCond = "strings.HasPrefix($i.GitVersion, \"v\") && semver.IsValid($i.GitVersion)" ∧
+    Generated.mainTrimBody = ["$i.GitVersion = strings.TrimPrefix($i.GitVersion, \"v\")"] ∧
+    Generated.mainVersionHanded = "$bv.GitVersion" := by decide
 
 /-- **a leading `v` of the linker-provided version is stripped whenever the rest is a semantic
 version** — whatever prerelease or build suffix it carries — so the gate sees exactly `B` -/
